@@ -323,7 +323,31 @@ def _child_elems(items):
                 yield from _child_elems(b)
 
 
+def _converter_flavour_rule(report, p):
+    """R10.9: the Windows flavour of the path classes only where the host is Windows"""
+    r9 = report.rule(
+        "R10.9",
+        "a backslash is an ordinary character of a POSIX file name: in the two path converters the Windows flavour of the path classes (which reads it as a "
+        "separator) is applied only under a test that the host is Windows - on the write side as much as on the read side",
+        2,
+    )
+    out_f = p.funcs.get("ascmhl.utils.convert_local_path_to_posix")
+    in_f = p.funcs.get("ascmhl.utils.convert_posix_to_local_path")
+    if out_f is None or in_f is None:
+        raise AnalysisError("path conversion helpers not found")
+    for f in (out_f, in_f):
+        r9.instance(f, f.node, f.name)
+        gconv = cfg_of(f)
+        for n in walk_no_nested(f.node):
+            if isinstance(n, ast.Call) and norm(n.func).split(".")[-1] in ("PureWindowsPath", "WindowsPath"):
+                deps = [(norm(t.ast).replace('"', "'").replace(" ", ""), l) for t, l in gconv.necessary_branches(gconv.node_for(n)) if t.kind == "test"]
+                on_windows = any((a in ("os.name=='nt'", "os.sep=='\\\\'", "sys.platform=='win32'", "sys.platform.startswith('win')", "platform.system()=='Windows'") and l == "T") or (a in ("os.name!='nt'", "os.name=='posix'", "os.sep=='/'") and l == "F") for a, l in deps)
+                r9.check(on_windows, f, n, f"{f.name} reads the path with the Windows flavour of the path classes on every host: on POSIX a backslash inside a file or folder name is taken for a separator, the recorded path (`a\\b.mov` -> `a/b.mov`) no longer names the file", construct=f"{f.name}: Windows path flavour on every host")
+    r9.check(True, None, None, "")
+
+
 def run(report, p):
+    _converter_flavour_rule(report, p)
     pr = prov(p)
     em, mdoc, cdoc, raw = documents(p)
     mw, cw = writers(p)
@@ -643,14 +667,6 @@ def run(report, p):
                 nm = norm(n.func)
                 ok = nm in allowed or nm.endswith(".as_posix")
                 r3.check(ok, f, n, f"{f.name} applies `{nm}` to the path: the value read back is no longer the value written (normalisation / case folding / trimming is not a separator conversion)", construct=f"{f.name}: {nm}")
-        # a backslash is an ordinary character of a POSIX file name: the Windows flavour of the path classes (which reads it as a separator) may only be
-        # applied where the host is Windows - on the write side as much as on the read side
-        gconv = cfg_of(f)
-        for n in walk_no_nested(f.node):
-            if isinstance(n, ast.Call) and norm(n.func).split(".")[-1] in ("PureWindowsPath", "WindowsPath"):
-                deps = [(norm(t.ast).replace('"', "'").replace(" ", ""), l) for t, l in gconv.necessary_branches(gconv.node_for(n)) if t.kind == "test"]
-                on_windows = any((a in ("os.name=='nt'", "os.sep=='\\\\'", "sys.platform=='win32'", "sys.platform.startswith('win')", "platform.system()=='Windows'") and l == "T") or (a in ("os.name!='nt'", "os.name=='posix'", "os.sep=='/'") and l == "F") for a, l in deps)
-                r3.check(on_windows, f, n, f"{f.name} reads the path with the Windows flavour of the path classes on every host: on POSIX a backslash inside a file or folder name is taken for a separator, the recorded path (`a\\b.mov` -> `a/b.mov`) no longer names the file", construct=f"{f.name}: Windows path flavour on every host")
         prm = f.params[0]
         rets = [n for n in walk_no_nested(f.node) if isinstance(n, ast.Return)]
         for rt in rets:
